@@ -1,14 +1,1678 @@
-//! C04 — not built yet.
-use crate::engine::{Ctx, Property};
+//! C04 — glyph substitution follows OpenType GSUB lookup semantics.
+//!
+//! program model (raw, shrinkable) → `resolve` (normalises into a valid `GsubModel` +
+//! `GdefModel`) → my GSUB/GDEF encoders (`fontgen::otl`) → allsorts (`gsub::apply` on the
+//! parsed tables, `Font::shape` with `Features::Custom`, `Font::shape` with `Features::Mask`)
+//! → compared with the spec-written interpreter `refmodel::otl_gsub` run on the *model*.
+
+use crate::engine::util::mix64;
+use crate::engine::{CaseResult, Ctx, Fail, Property, Rec};
+use crate::fontgen::basic::BasicFont;
+use crate::fontgen::otl::{
+    gdef_table, gsub_table, ChainRule, ClassDefM, ConditionM, Cov, FeatureM, FeatureVariationRecordM, FeatureVariationsM, GdefModel, GsubModel,
+    LangSysM, Lig, Lookup, LookupFlags, ScriptM, SeqLookup, SeqRule, Subtable,
+};
+use crate::fontgen::var::{fvar_table, AxisModel};
+use crate::refmodel::otl_gsub::{self as refgsub, Deviation, Outcome, RGlyph, Request};
+use allsorts::binary::read::ReadScope;
+use allsorts::font::{Font, MatchingPresentation};
+use allsorts::font_data::FontData;
+use allsorts::gsub::{self, FeatureInfo, FeatureMask, Features, GlyphOrigin, RawGlyph, RawGlyphFlags};
+use allsorts::layout::{new_layout_cache, GDEFTable, LayoutTable, GSUB};
+use allsorts::tables::variable_fonts::fvar::FvarTable;
+use allsorts::tables::Fixed;
+use allsorts::tinyvec::tiny_vec;
+use proptest::prelude::*;
+use std::collections::{BTreeMap, BTreeSet};
 
 pub struct C04;
+
+/// neutral feature tags (never fina/init/medi/isol/rvrn/vert/vrt2/frac, whose handling is allsorts policy)
+const TAGS: [[u8; 4]; 12] = [
+    *b"liga", *b"ccmp", *b"calt", *b"ss01", *b"test", *b"clig", *b"locl", *b"rlig", *b"dlig", *b"smcp", *b"ss02", *b"salt",
+];
+const ABSENT_TAG: [u8; 4] = *b"aalt";
+const LANG_TRK: [u8; 4] = *b"TRK ";
+const LANG_ENG: [u8; 4] = *b"ENG ";
+const PUA: u32 = 0xE000;
+const MAX_STRING: usize = 16;
+
+// ------------------------------------------------------------------------------ raw case
+
+#[derive(Clone, Debug)]
+pub struct RawCov {
+    pub runs: Vec<(u8, u8)>,
+    pub f2: bool,
+}
+
+#[derive(Clone, Debug)]
+pub struct RawClassDef {
+    pub runs: Vec<(u8, u8, u8)>,
+    pub f2: bool,
+}
+
+#[derive(Clone, Debug)]
+pub struct RawFlags {
+    pub ignore_base: bool,
+    pub ignore_lig: bool,
+    /// 0 none, 1 ignoreMarks, 2 attachment type, 3 filtering set, 4 ignoreMarks+type, 5 ignoreMarks+set
+    pub mark: u8,
+    pub attach: u8,
+    pub set: u8,
+    pub rtl: bool,
+}
+
+#[derive(Clone, Debug)]
+pub struct RawRule {
+    pub set: u8,
+    pub back: Vec<u8>,
+    pub input: Vec<u8>,
+    pub look: Vec<u8>,
+    pub records: Vec<(u8, u8)>,
+    pub out: u8,
+    pub keep_order: bool,
+    pub align: bool,
+}
+
+#[derive(Clone, Debug)]
+pub struct RawSub {
+    pub fmt: u8,
+    pub cov: RawCov,
+    pub outs: Vec<u8>,
+    pub seqs: Vec<Vec<u8>>,
+    pub rules: Vec<RawRule>,
+    pub classdefs: Vec<RawClassDef>,
+    pub share: bool,
+    pub back: Vec<RawCov>,
+    pub inp: Vec<RawCov>,
+    pub look: Vec<RawCov>,
+    pub records: Vec<(u8, u8)>,
+    pub keep_order: bool,
+    pub null_empty_sets: bool,
+}
+
+#[derive(Clone, Debug)]
+pub struct RawLookup {
+    pub ty: u8,
+    pub flags: RawFlags,
+    pub subs: Vec<RawSub>,
+    pub ext: Option<u8>,
+    pub level: u8,
+}
+
+#[derive(Clone, Debug)]
+pub struct RawGdef {
+    pub present: bool,
+    pub has_classes: bool,
+    pub classes: Vec<u8>,
+    pub cls_f2: bool,
+    pub attach: Option<(Vec<u8>, bool)>,
+    pub sets: Option<Vec<(u64, bool)>>,
+    pub v13: bool,
+}
+
+#[derive(Clone, Debug)]
+pub struct RawFeature {
+    pub tag: u8,
+    pub lookups: Vec<u8>,
+}
+
+#[derive(Clone, Debug)]
+pub struct RawScript {
+    pub present: bool,
+    pub has_default: bool,
+    pub default_mask: u8,
+    pub trk: Option<u8>,
+    pub reverse: bool,
+}
+
+#[derive(Clone, Debug)]
+pub struct RawFvRec {
+    pub conds: Vec<(u8, i16, i16, bool)>,
+    pub null_cs: bool,
+    pub subst: Option<Vec<(u8, Vec<u8>)>>,
+}
+
+#[derive(Clone, Debug)]
+pub struct RawFv {
+    pub axes: u8,
+    pub records: Vec<RawFvRec>,
+}
+
+#[derive(Clone, Debug)]
+pub struct RawRequest {
+    pub feat_mask: u8,
+    pub absent: bool,
+    pub alternate: Option<u8>,
+    pub lang: u8,
+    pub tuple: Option<Vec<(u8, i16)>>,
+}
+
+#[derive(Clone, Debug)]
+pub enum RawAtom {
+    G(u8),
+    W { lookup: u8, sub: u8, rule: u8, noise: u32 },
+}
+
+#[derive(Clone, Debug)]
+pub struct Case {
+    pub nglyphs: u8,
+    pub gdef: RawGdef,
+    pub lookups: Vec<RawLookup>,
+    pub features: Vec<RawFeature>,
+    pub scripts: Vec<RawScript>,
+    pub fv: Option<RawFv>,
+    pub force_v11: bool,
+    /// bias towards nested contexts: the first three lookups are contextual, the others are not
+    pub nest_bias: bool,
+    pub requests: Vec<RawRequest>,
+    pub strings: Vec<Vec<RawAtom>>,
+}
+
+// ------------------------------------------------------------------------------ strategies
+
+fn glyph() -> impl Strategy<Value = u8> {
+    prop_oneof![4 => 0u8..8, 1 => any::<u8>()]
+}
+
+fn raw_cov() -> impl Strategy<Value = RawCov> {
+    (proptest::collection::vec((glyph(), prop_oneof![3 => Just(1u8), 1 => 2u8..5]), 1..5), any::<bool>()).prop_map(|(runs, f2)| RawCov { runs, f2 })
+}
+
+fn raw_classdef() -> impl Strategy<Value = RawClassDef> {
+    (proptest::collection::vec((glyph(), 1u8..5, 1u8..4), 0..6), any::<bool>()).prop_map(|(runs, f2)| RawClassDef { runs, f2 })
+}
+
+fn raw_flags() -> impl Strategy<Value = RawFlags> {
+    prop_oneof![
+        1 => Just(RawFlags { ignore_base: false, ignore_lig: false, mark: 0, attach: 0, set: 0, rtl: false }),
+        3 => (
+            proptest::bool::weighted(0.3),
+            proptest::bool::weighted(0.3),
+            prop_oneof![2 => Just(0u8), 3 => Just(1u8), 3 => Just(2u8), 3 => Just(3u8), 1 => Just(4u8), 1 => Just(5u8)],
+            1u8..4,
+            0u8..3,
+            proptest::bool::weighted(0.1),
+        )
+            .prop_map(|(ignore_base, ignore_lig, mark, attach, set, rtl)| RawFlags { ignore_base, ignore_lig, mark, attach, set, rtl }),
+    ]
+}
+
+fn raw_records() -> impl Strategy<Value = Vec<(u8, u8)>> {
+    prop_oneof![1 => Just(Vec::new()), 5 => proptest::collection::vec((0u8..4, any::<u8>()), 1..4)]
+}
+
+fn raw_rule() -> impl Strategy<Value = RawRule> {
+    (
+        any::<u8>(),
+        proptest::collection::vec(glyph(), 0..3),
+        proptest::collection::vec(glyph(), 0..4),
+        proptest::collection::vec(glyph(), 0..3),
+        raw_records(),
+        glyph(),
+        proptest::bool::weighted(0.15),
+        proptest::bool::weighted(0.6),
+    )
+        .prop_map(|(set, back, input, look, records, out, keep_order, align)| RawRule { set, back, input, look, records, out, keep_order, align })
+}
+
+fn raw_sub() -> impl Strategy<Value = RawSub> {
+    (
+        (any::<u8>(), raw_cov(), proptest::collection::vec(glyph(), 1..5), proptest::collection::vec(proptest::collection::vec(glyph(), 1..4), 1..4)),
+        proptest::collection::vec(raw_rule(), 1..5),
+        (proptest::collection::vec(raw_classdef(), 3), proptest::bool::weighted(0.4)),
+        (proptest::collection::vec(raw_cov(), 0..3), proptest::collection::vec(raw_cov(), 0..3), proptest::collection::vec(raw_cov(), 0..3)),
+        (raw_records(), proptest::bool::weighted(0.15), any::<bool>()),
+    )
+        .prop_map(|((fmt, cov, outs, seqs), rules, (classdefs, share), (back, inp, look), (records, keep_order, null_empty_sets))| RawSub {
+            fmt,
+            cov,
+            outs,
+            seqs,
+            rules,
+            classdefs,
+            share,
+            back,
+            inp,
+            look,
+            records,
+            keep_order,
+            null_empty_sets,
+        })
+}
+
+fn raw_lookup() -> impl Strategy<Value = RawLookup> {
+    (
+        0u8..14,
+        raw_flags(),
+        proptest::collection::vec(raw_sub(), 1..4),
+        proptest::option::weighted(0.3, prop_oneof![3 => Just(0u8), 1 => 1u8..40]),
+        0u8..3,
+    )
+        .prop_map(|(ty, flags, subs, ext, level)| RawLookup { ty, flags, subs, ext, level })
+}
+
+fn raw_gdef() -> impl Strategy<Value = RawGdef> {
+    (
+        proptest::bool::weighted(0.9),
+        proptest::bool::weighted(0.95),
+        proptest::collection::vec(prop_oneof![2 => Just(0u8), 3 => Just(1u8), 2 => Just(2u8), 4 => Just(3u8), 1 => Just(4u8)], 64),
+        any::<bool>(),
+        proptest::option::weighted(0.8, (proptest::collection::vec(0u8..4, 64), any::<bool>())),
+        proptest::option::weighted(0.8, proptest::collection::vec((any::<u64>(), any::<bool>()), 1..4)),
+        proptest::bool::weighted(0.2),
+    )
+        .prop_map(|(present, has_classes, classes, cls_f2, attach, sets, v13)| RawGdef { present, has_classes, classes, cls_f2, attach, sets, v13 })
+}
+
+fn raw_script(p_present: f64) -> impl Strategy<Value = RawScript> {
+    (
+        proptest::bool::weighted(p_present),
+        proptest::bool::weighted(0.9),
+        prop_oneof![3 => Just(0xFFu8), 1 => any::<u8>()],
+        proptest::option::weighted(0.4, any::<u8>()),
+        any::<bool>(),
+    )
+        .prop_map(|(present, has_default, default_mask, trk, reverse)| RawScript { present, has_default, default_mask, trk, reverse })
+}
+
+fn coord() -> impl Strategy<Value = i16> {
+    prop_oneof![
+        3 => prop_oneof![Just(-16384i16), Just(-8192), Just(0), Just(8192), Just(16384), Just(1), Just(-1)],
+        2 => -16384i16..=16384,
+    ]
+}
+
+fn raw_fv() -> impl Strategy<Value = RawFv> {
+    (
+        1u8..3,
+        proptest::collection::vec(
+            (
+                proptest::collection::vec((0u8..2, coord(), coord(), proptest::bool::weighted(0.1)), 0..3),
+                any::<bool>(),
+                proptest::option::weighted(0.9, proptest::collection::vec((any::<u8>(), proptest::collection::vec(any::<u8>(), 0..3)), 1..3)),
+            )
+                .prop_map(|(conds, null_cs, subst)| RawFvRec { conds, null_cs, subst }),
+            1..4,
+        ),
+    )
+        .prop_map(|(axes, records)| RawFv { axes, records })
+}
+
+fn raw_request() -> impl Strategy<Value = RawRequest> {
+    (
+        prop_oneof![2 => Just(0xFFu8), 1 => any::<u8>()],
+        proptest::bool::weighted(0.15),
+        proptest::option::weighted(0.3, 0u8..3),
+        prop_oneof![3 => Just(0u8), 1 => Just(1u8), 1 => Just(2u8)],
+        proptest::option::weighted(0.75, proptest::collection::vec((any::<u8>(), coord()), 2)),
+    )
+        .prop_map(|(feat_mask, absent, alternate, lang, tuple)| RawRequest { feat_mask, absent, alternate, lang, tuple })
+}
+
+fn raw_atom() -> impl Strategy<Value = RawAtom> {
+    prop_oneof![
+        2 => glyph().prop_map(RawAtom::G),
+        3 => (any::<u8>(), any::<u8>(), any::<u8>(), any::<u32>()).prop_map(|(lookup, sub, rule, noise)| RawAtom::W { lookup, sub, rule, noise }),
+    ]
+}
+
+pub fn case_strategy() -> impl Strategy<Value = Case> {
+    (
+        (24u8..=63, raw_gdef()),
+        proptest::collection::vec(raw_lookup(), 1..7),
+        proptest::collection::vec((0u8..12, proptest::collection::vec(any::<u8>(), 1..4)).prop_map(|(tag, lookups)| RawFeature { tag, lookups }), 1..5),
+        (raw_script(0.5), raw_script(0.85), raw_script(0.2)).prop_map(|(a, b, c)| vec![a, b, c]),
+        (proptest::option::weighted(0.35, raw_fv()), proptest::bool::weighted(0.2), proptest::bool::weighted(0.3)),
+        proptest::collection::vec(raw_request(), 1..3),
+        proptest::collection::vec(proptest::collection::vec(raw_atom(), 0..6), 4..9),
+    )
+        .prop_map(|((nglyphs, gdef), lookups, features, scripts, (fv, force_v11, nest_bias), requests, strings)| Case {
+            nglyphs,
+            gdef,
+            lookups,
+            features,
+            scripts,
+            fv,
+            force_v11,
+            nest_bias,
+            requests,
+            strings,
+        })
+}
+
+// ------------------------------------------------------------------------------ resolution
+
+#[derive(Clone, Debug)]
+pub struct Req {
+    pub features: Vec<[u8; 4]>,
+    pub alternate: Option<usize>,
+    pub lang: Option<[u8; 4]>,
+    pub tuple: Option<Vec<i16>>,
+}
+
+#[derive(Clone, Debug)]
+pub struct Program {
+    /// glyph ids 1..=n are the universe; the font has n+1 glyphs
+    pub n: u16,
+    pub gdef: Option<GdefModel>,
+    pub gsub: GsubModel,
+    pub requests: Vec<Req>,
+    pub strings: Vec<Vec<u16>>,
+    /// rules whose records were left in generated order although a target may change the length
+    pub unordered_rules: usize,
+    pub nest_bias: bool,
+}
+
+fn gl(n: u16, g: u8) -> u16 {
+    1 + (g as u16 % n)
+}
+
+fn res_cov(n: u16, c: &RawCov) -> Cov {
+    let mut v = Vec::new();
+    for (s, l) in &c.runs {
+        let s = gl(n, *s);
+        for k in 0..*l as u16 {
+            if s + k <= n {
+                v.push(s + k);
+            }
+        }
+    }
+    Cov::new(v, if c.f2 { 2 } else { 1 })
+}
+
+fn res_classdef(n: u16, c: &RawClassDef) -> ClassDefM {
+    let mut m = BTreeMap::new();
+    for (s, l, k) in &c.runs {
+        let s = gl(n, *s);
+        for j in 0..*l as u16 {
+            if s + j <= n {
+                m.insert(s + j, *k as u16);
+            }
+        }
+    }
+    ClassDefM::new(m, if c.f2 { 2 } else { 1 })
+}
+
+fn res_gdef(n: u16, g: &RawGdef) -> Option<GdefModel> {
+    if !g.present {
+        return None;
+    }
+    let glyph_classes = if g.has_classes {
+        let m: BTreeMap<u16, u16> = (1..=n).map(|i| (i, g.classes[(i as usize) % g.classes.len()] as u16)).collect();
+        Some(ClassDefM::new(m, if g.cls_f2 { 2 } else { 1 }))
+    } else {
+        None
+    };
+    let mark_attach_classes = g.attach.as_ref().map(|(a, f2)| {
+        let m: BTreeMap<u16, u16> = (1..=n).map(|i| (i, a[(i as usize) % a.len()] as u16)).collect();
+        ClassDefM::new(m, if *f2 { 2 } else { 1 })
+    });
+    let mark_glyph_sets = g.sets.as_ref().map(|sets| {
+        sets.iter()
+            .map(|(mask, f2)| Cov::new((1..=n).filter(|i| mask >> (*i as u64 % 64) & 1 == 1).collect(), if *f2 { 2 } else { 1 }))
+            .collect::<Vec<Cov>>()
+    });
+    Some(GdefModel { glyph_classes, mark_attach_classes, mark_glyph_sets, v13: g.v13 })
+}
+
+fn res_flags(f: &RawFlags, gdef: Option<&GdefModel>) -> LookupFlags {
+    let nsets = gdef.and_then(|g| g.mark_glyph_sets.as_ref()).map(|s| s.len()).unwrap_or(0);
+    let set = if nsets > 0 { Some((f.set as usize % nsets) as u16) } else { None };
+    let mut out = LookupFlags { right_to_left: f.rtl, ignore_base: f.ignore_base, ignore_ligatures: f.ignore_lig, ..LookupFlags::default() };
+    match f.mark {
+        1 => out.ignore_marks = true,
+        2 => out.mark_attach_type = f.attach,
+        3 => out.mark_filtering_set = set,
+        4 => {
+            out.ignore_marks = true;
+            out.mark_attach_type = f.attach;
+        }
+        5 => {
+            out.ignore_marks = true;
+            out.mark_filtering_set = set;
+        }
+        _ => {}
+    }
+    out
+}
+
+const TYPE_TABLE: [u16; 14] = [1, 1, 2, 3, 4, 4, 5, 5, 5, 6, 6, 6, 8, 4];
+
+struct Resolver<'a> {
+    n: u16,
+    types: Vec<u16>,
+    levels: Vec<u8>,
+    raw: &'a [RawLookup],
+    unordered: usize,
+}
+
+impl Resolver<'_> {
+    /// lookups a contextual lookup `this` may invoke: any non-contextual lookup except type 8,
+    /// and contextual lookups of a strictly higher level (bounds the nesting depth at 2)
+    fn targets(&self, this: usize) -> Vec<u16> {
+        let mut out: Vec<u16> = Vec::new();
+        for j in 0..self.types.len() {
+            match self.types[j] {
+                1 | 3 => out.push(j as u16),
+                // length-changing targets get double weight
+                2 | 4 => out.extend([j as u16; 2]),
+                // contextual targets get triple weight
+                5 | 6 if self.levels[j] > self.levels[this] => out.extend([j as u16; 3]),
+                _ => {}
+            }
+        }
+        out
+    }
+
+    fn records(&mut self, this: usize, raw: &[(u8, u8)], input_len: usize, keep_order: bool) -> Vec<SeqLookup> {
+        let targets = self.targets(this);
+        if targets.is_empty() {
+            return Vec::new();
+        }
+        let mut recs: Vec<SeqLookup> = raw.iter().map(|(s, l)| ((*s as usize % input_len) as u16, targets[*l as usize % targets.len()])).collect();
+        let may_change = recs.iter().any(|(_, l)| matches!(self.types[*l as usize], 2 | 4 | 5 | 6));
+        if may_change && recs.len() > 1 {
+            if keep_order {
+                self.unordered += 1;
+            } else {
+                recs.sort_by(|a, b| b.0.cmp(&a.0));
+            }
+        }
+        recs
+    }
+
+    /// first-subtable coverage of a lookup, used to align rule inputs with nested lookups
+    fn first_cov(&self, li: usize) -> Cov {
+        res_cov(self.n, &self.raw[li].subs[0].cov)
+    }
+
+    /// for a glyph-based rule with a record at sequence index 0: a rule set whose first glyph the
+    /// nested lookup covers
+    fn aligned_set(&self, cov: &Cov, r: &RawRule, records: &[SeqLookup]) -> Option<usize> {
+        if !r.align {
+            return None;
+        }
+        let (_, l) = records.iter().find(|(s, _)| *s == 0)?;
+        let c = self.first_cov(*l as usize);
+        let both: Vec<usize> = cov.glyphs.iter().enumerate().filter(|(_, g)| c.contains(**g)).map(|(i, _)| i).collect();
+        if both.is_empty() {
+            None
+        } else {
+            Some(both[r.set as usize % both.len()])
+        }
+    }
+
+    fn seq_rule(&mut self, this: usize, r: &RawRule, map: impl Fn(u8) -> u16, glyph_based: bool) -> SeqRule {
+        let mut input: Vec<u16> = r.input.iter().map(|g| map(*g)).collect();
+        let records = self.records(this, &r.records, input.len() + 1, r.keep_order);
+        if glyph_based && r.align {
+            for (s, l) in &records {
+                if *s > 0 {
+                    let c = self.first_cov(*l as usize);
+                    if !c.glyphs.is_empty() {
+                        input[*s as usize - 1] = c.glyphs[r.out as usize % c.glyphs.len()];
+                    }
+                }
+            }
+        }
+        SeqRule { input, records }
+    }
+
+    fn chain_rule(&mut self, this: usize, r: &RawRule, mb: impl Fn(u8) -> u16, mi: impl Fn(u8) -> u16, ml: impl Fn(u8) -> u16, glyph_based: bool) -> ChainRule {
+        let s = self.seq_rule(this, r, mi, glyph_based);
+        ChainRule {
+            backtrack: r.back.iter().map(|g| mb(*g)).collect(),
+            input: s.input,
+            lookahead: r.look.iter().map(|g| ml(*g)).collect(),
+            records: s.records,
+        }
+    }
+
+    fn sets<R>(nsets: usize, rules: Vec<(usize, R)>, null_empty: bool) -> Vec<Option<Vec<R>>> {
+        let mut out: Vec<Option<Vec<R>>> = (0..nsets).map(|_| None).collect();
+        for (k, r) in rules {
+            out[k].get_or_insert_with(Vec::new).push(r);
+        }
+        if !null_empty {
+            for o in out.iter_mut() {
+                if o.is_none() {
+                    *o = Some(Vec::new());
+                }
+            }
+        }
+        out
+    }
+
+    fn subtable(&mut self, this: usize, ty: u16, s: &RawSub) -> Subtable {
+        let n = self.n;
+        let cov = res_cov(n, &s.cov);
+        let ncov = cov.glyphs.len().max(1);
+        match ty {
+            1 => {
+                if s.fmt % 2 == 0 {
+                    let min = *cov.glyphs.first().unwrap_or(&1) as i32;
+                    let max = *cov.glyphs.last().unwrap_or(&1) as i32;
+                    let target = gl(n, s.outs[0]) as i32;
+                    let delta = (target - min).clamp(1 - min, n as i32 - max);
+                    Subtable::Single1 { cov, delta: delta as i16 }
+                } else {
+                    let subst = (0..cov.glyphs.len()).map(|k| gl(n, s.outs[k % s.outs.len()])).collect();
+                    Subtable::Single2 { cov, subst }
+                }
+            }
+            2 => {
+                let seqs = (0..cov.glyphs.len()).map(|k| s.seqs[k % s.seqs.len()].iter().map(|g| gl(n, *g)).collect()).collect();
+                Subtable::Multiple { cov, seqs }
+            }
+            3 => {
+                let sets = (0..cov.glyphs.len()).map(|k| s.seqs[k % s.seqs.len()].iter().map(|g| gl(n, *g)).collect()).collect();
+                Subtable::Alternate { cov, sets }
+            }
+            4 => {
+                let mut sets: Vec<Vec<Lig>> = (0..cov.glyphs.len()).map(|_| Vec::new()).collect();
+                if !sets.is_empty() {
+                    for r in &s.rules {
+                        sets[r.set as usize % ncov].push(Lig { components: r.input.iter().map(|g| gl(n, *g)).collect(), glyph: gl(n, r.out) });
+                    }
+                }
+                Subtable::Ligature { cov, sets }
+            }
+            5 => match s.fmt % 3 {
+                0 => {
+                    let rules: Vec<(usize, SeqRule)> = s
+                        .rules
+                        .iter()
+                        .map(|r| {
+                            let rule = self.seq_rule(this, r, |g| gl(n, g), true);
+                            (self.aligned_set(&cov, r, &rule.records).unwrap_or(r.set as usize % ncov), rule)
+                        })
+                        .collect();
+                    let rulesets = if cov.glyphs.is_empty() { Vec::new() } else { Self::sets(cov.glyphs.len(), rules, s.null_empty_sets) };
+                    Subtable::Context1 { cov, rulesets }
+                }
+                1 => {
+                    let cd = res_classdef(n, &s.classdefs[0]);
+                    let nc = cd.max_class() + 1;
+                    let rules: Vec<(usize, SeqRule)> = s.rules.iter().map(|r| ((r.set as u16 % nc) as usize, self.seq_rule(this, r, |g| g as u16 % nc, false))).collect();
+                    let rulesets = Self::sets(nc as usize, rules, s.null_empty_sets);
+                    Subtable::Context2 { cov, classdef: cd, rulesets }
+                }
+                _ => {
+                    let mut covs = vec![cov];
+                    covs.extend(s.inp.iter().map(|c| res_cov(n, c)));
+                    let records = self.records(this, &s.records, covs.len(), s.keep_order);
+                    Subtable::Context3 { covs, records }
+                }
+            },
+            6 => match s.fmt % 3 {
+                0 => {
+                    let rules: Vec<(usize, ChainRule)> = s
+                        .rules
+                        .iter()
+                        .map(|r| {
+                            let rule = self.chain_rule(this, r, |g| gl(n, g), |g| gl(n, g), |g| gl(n, g), true);
+                            (self.aligned_set(&cov, r, &rule.records).unwrap_or(r.set as usize % ncov), rule)
+                        })
+                        .collect();
+                    let rulesets = if cov.glyphs.is_empty() { Vec::new() } else { Self::sets(cov.glyphs.len(), rules, s.null_empty_sets) };
+                    Subtable::Chain1 { cov, rulesets }
+                }
+                1 => {
+                    let (b, i, l) = if s.share {
+                        let c = res_classdef(n, &s.classdefs[1]);
+                        (c.clone(), c.clone(), c)
+                    } else {
+                        (res_classdef(n, &s.classdefs[0]), res_classdef(n, &s.classdefs[1]), res_classdef(n, &s.classdefs[2]))
+                    };
+                    let (nb, ni, nl) = (b.max_class() + 1, i.max_class() + 1, l.max_class() + 1);
+                    let rules: Vec<(usize, ChainRule)> = s
+                        .rules
+                        .iter()
+                        .map(|r| ((r.set as u16 % ni) as usize, self.chain_rule(this, r, |g| g as u16 % nb, |g| g as u16 % ni, |g| g as u16 % nl, false)))
+                        .collect();
+                    let rulesets = Self::sets(ni as usize, rules, s.null_empty_sets);
+                    Subtable::Chain2 { cov, backtrack_classdef: b, input_classdef: i, lookahead_classdef: l, share_classdefs: s.share, rulesets }
+                }
+                _ => {
+                    let mut input = vec![cov];
+                    input.extend(s.inp.iter().map(|c| res_cov(n, c)));
+                    let records = self.records(this, &s.records, input.len(), s.keep_order);
+                    Subtable::Chain3 {
+                        backtrack: s.back.iter().map(|c| res_cov(n, c)).collect(),
+                        input,
+                        lookahead: s.look.iter().map(|c| res_cov(n, c)).collect(),
+                        records,
+                    }
+                }
+            },
+            _ => {
+                let subst = (0..cov.glyphs.len()).map(|k| gl(n, s.outs[k % s.outs.len()])).collect();
+                Subtable::Reverse { cov, backtrack: s.back.iter().map(|c| res_cov(n, c)).collect(), lookahead: s.look.iter().map(|c| res_cov(n, c)).collect(), subst }
+            }
+        }
+    }
+}
+
+fn res_langsys(features: &[FeatureM], mask: u8, reverse: bool) -> LangSysM {
+    let mut idx: Vec<u16> = Vec::new();
+    let mut seen: BTreeSet<[u8; 4]> = BTreeSet::new();
+    let order: Vec<usize> = if reverse { (0..features.len()).rev().collect() } else { (0..features.len()).collect() };
+    for i in order {
+        if mask >> (i % 8) & 1 == 1 && seen.insert(features[i].tag) {
+            idx.push(i as u16);
+        }
+    }
+    LangSysM { required_feature: 0xFFFF, feature_indices: idx }
+}
+
+pub fn resolve(c: &Case) -> Program {
+    let n = c.nglyphs.clamp(8, 63) as u16;
+    let gdef = res_gdef(n, &c.gdef);
+    let types: Vec<u16> = c
+        .lookups
+        .iter()
+        .enumerate()
+        .map(|(i, l)| {
+            let t = TYPE_TABLE[l.ty as usize % TYPE_TABLE.len()];
+            if c.nest_bias && c.lookups.len() >= 3 {
+                match (i, t) {
+                    (0..=2, 5 | 6) => t,
+                    (0..=2, _) => 5 + (l.ty as u16 % 2),
+                    (_, 5 | 6 | 8) => [2u16, 4, 1, 4][l.ty as usize % 4],
+                    _ => t,
+                }
+            } else {
+                t
+            }
+        })
+        .collect();
+    // contextual lookups get levels 0,1,2,0,… in list order (rotated by the first one's raw level)
+    // so that chains of nested contexts of depth 2 exist whenever there are three of them
+    let mut rank = c.lookups.first().map(|l| l.level as usize).unwrap_or(0);
+    let levels: Vec<u8> = types
+        .iter()
+        .map(|t| {
+            if matches!(t, 5 | 6) {
+                rank += 1;
+                ((rank - 1) % 3) as u8
+            } else {
+                0
+            }
+        })
+        .collect();
+    let mut r = Resolver { n, types: types.clone(), levels, raw: &c.lookups, unordered: 0 };
+    let mut lookups = Vec::new();
+    for (i, l) in c.lookups.iter().enumerate() {
+        let subtables = l.subs.iter().map(|s| r.subtable(i, types[i], s)).collect();
+        lookups.push(Lookup { lookup_type: types[i], flags: res_flags(&l.flags, gdef.as_ref()), subtables, extension: l.ext.map(|g| g as usize) });
+    }
+    let nl = lookups.len();
+    // features, sorted by tag (stable)
+    let mut features: Vec<FeatureM> = c
+        .features
+        .iter()
+        .map(|f| {
+            let mut ls: Vec<u16> = Vec::new();
+            for l in &f.lookups {
+                let v = (*l as usize % nl) as u16;
+                if !ls.contains(&v) {
+                    ls.push(v);
+                }
+            }
+            FeatureM { tag: TAGS[f.tag as usize % TAGS.len()], lookups: ls }
+        })
+        .collect();
+    if c.nest_bias {
+        if let Some(f) = features.first_mut() {
+            f.lookups.retain(|l| *l != 0);
+            f.lookups.insert(0, 0);
+        }
+    }
+    features.sort_by_key(|f| f.tag);
+    let script_tags: [[u8; 4]; 3] = [*b"DFLT", *b"latn", *b"grek"];
+    let mut scripts = Vec::new();
+    for (k, s) in c.scripts.iter().enumerate().take(3) {
+        if !s.present {
+            continue;
+        }
+        scripts.push(ScriptM {
+            tag: script_tags[k],
+            default_langsys: if s.has_default { Some(res_langsys(&features, s.default_mask, s.reverse)) } else { None },
+            langsys: s.trk.map(|m| vec![(LANG_TRK, res_langsys(&features, m, !s.reverse))]).unwrap_or_default(),
+        });
+    }
+    let nf = features.len();
+    let feature_variations = c.fv.as_ref().map(|fv| FeatureVariationsM {
+        axis_count: fv.axes as u16,
+        records: fv
+            .records
+            .iter()
+            .map(|rec| FeatureVariationRecordM {
+                conditions: rec
+                    .conds
+                    .iter()
+                    .map(|(a, x, y, raw_order)| {
+                        let (min, max) = if *raw_order { (*x, *y) } else { (*x.min(y), *x.max(y)) };
+                        ConditionM { axis: (*a % fv.axes) as u16, min, max }
+                    })
+                    .collect(),
+                null_condition_set: rec.null_cs,
+                substitutions: rec.subst.as_ref().map(|subs| {
+                    let mut m: BTreeMap<u16, Vec<u16>> = BTreeMap::new();
+                    for (fi, ls) in subs {
+                        let mut v: Vec<u16> = Vec::new();
+                        for l in ls {
+                            let x = (*l as usize % nl) as u16;
+                            if !v.contains(&x) {
+                                v.push(x);
+                            }
+                        }
+                        m.entry((*fi as usize % nf) as u16).or_insert(v);
+                    }
+                    m.into_iter().collect()
+                }),
+            })
+            .collect(),
+    });
+    let gsub = GsubModel { scripts, features, lookups, feature_variations, force_v11: c.force_v11 };
+    // requests
+    let tags: Vec<[u8; 4]> = gsub.features.iter().map(|f| f.tag).collect::<BTreeSet<_>>().into_iter().collect();
+    let requests: Vec<Req> = c
+        .requests
+        .iter()
+        .map(|q| {
+            let mut features: Vec<[u8; 4]> = tags.iter().enumerate().filter(|(i, _)| q.feat_mask >> (i % 8) & 1 == 1).map(|(_, t)| *t).collect();
+            if features.is_empty() {
+                features = tags.clone();
+            }
+            if q.absent {
+                features.insert(0, ABSENT_TAG);
+            }
+            let tuple = match (&gsub.feature_variations, &q.tuple) {
+                (Some(fv), Some(t)) => Some(
+                    (0..fv.axis_count as usize)
+                        .map(|a| {
+                            let (sel, raw) = t[a % t.len()];
+                            let mut cands: Vec<i32> = vec![raw as i32];
+                            for r in &fv.records {
+                                for cnd in &r.conditions {
+                                    if cnd.axis as usize == a {
+                                        for d in [-1i32, 0, 1] {
+                                            cands.push(cnd.min as i32 + d);
+                                            cands.push(cnd.max as i32 + d);
+                                        }
+                                    }
+                                }
+                            }
+                            cands[sel as usize % cands.len()].clamp(-16384, 16384) as i16
+                        })
+                        .collect(),
+                ),
+                _ => None,
+            };
+            Req {
+                features,
+                alternate: q.alternate.map(|a| a as usize),
+                lang: match q.lang {
+                    1 => Some(LANG_TRK),
+                    2 => Some(LANG_ENG),
+                    _ => None,
+                },
+                tuple,
+            }
+        })
+        .collect();
+    let mut p = Program { n, gdef, gsub, requests, strings: Vec::new(), unordered_rules: r.unordered, nest_bias: c.nest_bias };
+    p.strings = c.strings.iter().map(|atoms| build_string(&p, atoms)).collect();
+    p
+}
+
+// ------------------------------------------------------------------------------ witness strings
+
+enum WTest<'a> {
+    G(u16),
+    Class(&'a ClassDefM, u16),
+    Cov(&'a Cov),
+}
+
+impl WTest<'_> {
+    fn candidates(&self, n: u16) -> Vec<u16> {
+        match self {
+            WTest::G(g) => vec![*g],
+            WTest::Class(cd, k) => (1..=n).filter(|g| cd.class_of(*g) == *k).collect(),
+            WTest::Cov(c) => c.glyphs.clone(),
+        }
+    }
+}
+
+struct Rng(u64);
+impl Rng {
+    fn next(&mut self) -> u64 {
+        self.0 = mix64(self.0);
+        self.0
+    }
+    fn below(&mut self, n: usize) -> usize {
+        if n == 0 {
+            0
+        } else {
+            (self.next() % n as u64) as usize
+        }
+    }
+}
+
+fn pick_set<R>(sets: &[Option<Vec<R>>], r: usize) -> Option<(usize, &R)> {
+    let n = sets.len();
+    for d in 0..n {
+        let k = (r + d) % n;
+        if let Some(rules) = &sets[k] {
+            if !rules.is_empty() {
+                return Some((k, &rules[(r / 7) % rules.len()]));
+            }
+        }
+    }
+    None
+}
+
+struct RuleView<'a> {
+    /// font order: [0] is next to the first input glyph
+    back: Vec<WTest<'a>>,
+    /// including the first glyph
+    input: Vec<WTest<'a>>,
+    look: Vec<WTest<'a>>,
+    records: &'a [SeqLookup],
+}
+
+/// The tests of one rule (chosen by `r`) of a subtable.
+fn rule_view<'a>(st: &'a Subtable, r: usize, rng: &mut Rng) -> Option<RuleView<'a>> {
+    let mut v = RuleView { back: Vec::new(), input: Vec::new(), look: Vec::new(), records: &[] };
+    match st {
+        Subtable::Single1 { cov, .. } | Subtable::Single2 { cov, .. } | Subtable::Multiple { cov, .. } | Subtable::Alternate { cov, .. } => v.input.push(WTest::Cov(cov)),
+        Subtable::Ligature { cov, sets } => {
+            if cov.glyphs.is_empty() {
+                return None;
+            }
+            let mut ci = r % cov.glyphs.len();
+            for d in 0..sets.len() {
+                if !sets[(ci + d) % sets.len()].is_empty() {
+                    ci = (ci + d) % sets.len();
+                    break;
+                }
+            }
+            v.input.push(WTest::G(cov.glyphs[ci]));
+            if !sets[ci].is_empty() {
+                let lig = &sets[ci][(r / 7) % sets[ci].len()];
+                v.input.extend(lig.components.iter().map(|c| WTest::G(*c)));
+            }
+        }
+        Subtable::Context1 { cov, rulesets } => match pick_set(rulesets, r) {
+            Some((k, rl)) => {
+                v.input.push(WTest::G(cov.glyphs[k]));
+                v.input.extend(rl.input.iter().map(|g| WTest::G(*g)));
+                v.records = &rl.records;
+            }
+            None => v.input.push(WTest::Cov(cov)),
+        },
+        Subtable::Context2 { cov, classdef, rulesets } => match pick_set(rulesets, r) {
+            Some((k, rl)) => {
+                let first: Vec<u16> = cov.glyphs.iter().copied().filter(|g| classdef.class_of(*g) as usize == k).collect();
+                if first.is_empty() {
+                    v.input.push(WTest::Cov(cov));
+                } else {
+                    v.input.push(WTest::G(first[rng.below(first.len())]));
+                }
+                v.input.extend(rl.input.iter().map(|c| WTest::Class(classdef, *c)));
+                v.records = &rl.records;
+            }
+            None => v.input.push(WTest::Cov(cov)),
+        },
+        Subtable::Context3 { covs, records } => {
+            v.input.extend(covs.iter().map(WTest::Cov));
+            v.records = records;
+        }
+        Subtable::Chain1 { cov, rulesets } => match pick_set(rulesets, r) {
+            Some((k, rl)) => {
+                v.input.push(WTest::G(cov.glyphs[k]));
+                v.input.extend(rl.input.iter().map(|g| WTest::G(*g)));
+                v.back.extend(rl.backtrack.iter().map(|g| WTest::G(*g)));
+                v.look.extend(rl.lookahead.iter().map(|g| WTest::G(*g)));
+                v.records = &rl.records;
+            }
+            None => v.input.push(WTest::Cov(cov)),
+        },
+        Subtable::Chain2 { cov, backtrack_classdef, input_classdef, lookahead_classdef, rulesets, .. } => match pick_set(rulesets, r) {
+            Some((k, rl)) => {
+                let first: Vec<u16> = cov.glyphs.iter().copied().filter(|g| input_classdef.class_of(*g) as usize == k).collect();
+                if first.is_empty() {
+                    v.input.push(WTest::Cov(cov));
+                } else {
+                    v.input.push(WTest::G(first[rng.below(first.len())]));
+                }
+                v.input.extend(rl.input.iter().map(|c| WTest::Class(input_classdef, *c)));
+                v.back.extend(rl.backtrack.iter().map(|c| WTest::Class(backtrack_classdef, *c)));
+                v.look.extend(rl.lookahead.iter().map(|c| WTest::Class(lookahead_classdef, *c)));
+                v.records = &rl.records;
+            }
+            None => v.input.push(WTest::Cov(cov)),
+        },
+        Subtable::Chain3 { backtrack, input, lookahead, records } => {
+            v.input.extend(input.iter().map(WTest::Cov));
+            v.back.extend(backtrack.iter().map(WTest::Cov));
+            v.look.extend(lookahead.iter().map(WTest::Cov));
+            v.records = records;
+        }
+        Subtable::Reverse { cov, backtrack, lookahead, .. } => {
+            v.input.push(WTest::Cov(cov));
+            v.back.extend(backtrack.iter().map(WTest::Cov));
+            v.look.extend(lookahead.iter().map(WTest::Cov));
+        }
+    }
+    Some(v)
+}
+
+/// Narrow the candidate slots from `start` on so that lookup `li` (invoked by a sequence lookup
+/// record at that slot) can match too; recursive for the nested lookup's own records.
+fn constrain(p: &Program, slots: &mut Vec<Vec<u16>>, start: usize, li: usize, rng: &mut Rng, depth: usize) {
+    let l = match p.gsub.lookups.get(li) {
+        Some(l) => l,
+        None => return,
+    };
+    let universe: Vec<u16> = (1..=p.n).collect();
+    for _ in 0..3 {
+        let st = &l.subtables[rng.below(l.subtables.len())];
+        let r = rng.below(64);
+        let v = match rule_view(st, r, rng) {
+            Some(v) => v,
+            None => continue,
+        };
+        let mut ns = slots.clone();
+        let mut ok = true;
+        let fwd: Vec<&WTest<'_>> = v.input.iter().chain(v.look.iter()).collect();
+        for (k, t) in fwd.iter().enumerate() {
+            let idx = start + k;
+            if idx >= MAX_STRING {
+                ok = false;
+                break;
+            }
+            if idx >= ns.len() {
+                ns.push(universe.clone());
+            }
+            let c = t.candidates(p.n);
+            let mut inter: Vec<u16> = ns[idx].iter().copied().filter(|g| c.contains(g)).collect();
+            // prefer glyphs the nested lookup does not skip
+            let good: Vec<u16> = inter.iter().copied().filter(|g| refgsub::skip_reason(&l.flags, p.gdef.as_ref(), *g).is_none()).collect();
+            if !good.is_empty() {
+                inter = good;
+            }
+            if inter.is_empty() {
+                ok = false;
+                break;
+            }
+            ns[idx] = inter;
+        }
+        if ok {
+            for (k, t) in v.back.iter().enumerate() {
+                if start < k + 1 {
+                    break;
+                }
+                let idx = start - 1 - k;
+                let c = t.candidates(p.n);
+                let inter: Vec<u16> = ns[idx].iter().copied().filter(|g| c.contains(g)).collect();
+                if inter.is_empty() {
+                    ok = false;
+                    break;
+                }
+                ns[idx] = inter;
+            }
+        }
+        if ok {
+            *slots = ns;
+            if depth < 3 {
+                for (seq, t) in v.records {
+                    constrain(p, slots, start + *seq as usize, *t as usize, rng, depth + 1);
+                }
+            }
+            return;
+        }
+    }
+}
+
+/// A glyph sequence on which subtable `sub` of lookup `lookup` is likely to fire, including the
+/// lookups its sequence lookup records invoke.
+fn witness(p: &Program, lookup: u8, sub: u8, rule: u8, noise: u32) -> Vec<u16> {
+    let n = p.n;
+    let l = &p.gsub.lookups[lookup as usize % p.gsub.lookups.len()];
+    let st = &l.subtables[sub as usize % l.subtables.len()];
+    let mut rng = Rng(noise as u64 ^ 0xC04);
+    let v = match rule_view(st, rule as usize, &mut rng) {
+        Some(v) => v,
+        None => return Vec::new(),
+    };
+    let unskipped = |g: &u16| refgsub::skip_reason(&l.flags, p.gdef.as_ref(), *g).is_none();
+    let mut slots: Vec<Vec<u16>> = Vec::new();
+    for t in v.back.iter().rev().chain(v.input.iter()).chain(v.look.iter()) {
+        let mut c = t.candidates(n);
+        let good: Vec<u16> = c.iter().copied().filter(unskipped).collect();
+        if !good.is_empty() {
+            c = good;
+        }
+        slots.push(c);
+    }
+    let input_start = v.back.len();
+    if rng.below(8) != 0 {
+        for (seq, t) in v.records {
+            constrain(p, &mut slots, input_start + *seq as usize, *t as usize, &mut rng, 1);
+        }
+    }
+    let skippable: Vec<u16> = (1..=n).filter(|g| !unskipped(g)).collect();
+    let mut out: Vec<u16> = Vec::new();
+    for (k, c) in slots.iter().enumerate() {
+        if k > 0 && !skippable.is_empty() && rng.below(5) < 2 {
+            out.push(skippable[rng.below(skippable.len())]);
+            if rng.below(4) == 0 {
+                out.push(skippable[rng.below(skippable.len())]);
+            }
+        }
+        if c.is_empty() {
+            out.push(1 + rng.below(n as usize) as u16);
+        } else {
+            out.push(c[rng.below(c.len())]);
+        }
+    }
+    out
+}
+
+#[allow(dead_code)]
+fn first_coverage(st: &Subtable) -> Cov {
+    match st {
+        Subtable::Single1 { cov, .. }
+        | Subtable::Single2 { cov, .. }
+        | Subtable::Multiple { cov, .. }
+        | Subtable::Alternate { cov, .. }
+        | Subtable::Ligature { cov, .. }
+        | Subtable::Context1 { cov, .. }
+        | Subtable::Context2 { cov, .. }
+        | Subtable::Chain1 { cov, .. }
+        | Subtable::Chain2 { cov, .. }
+        | Subtable::Reverse { cov, .. } => cov.clone(),
+        Subtable::Context3 { covs, .. } => covs.first().cloned().unwrap_or_default(),
+        Subtable::Chain3 { input, .. } => input.first().cloned().unwrap_or_default(),
+    }
+}
+
+fn build_string(p: &Program, atoms: &[RawAtom]) -> Vec<u16> {
+    let mut s = Vec::new();
+    for a in atoms {
+        match a {
+            RawAtom::G(g) => s.push(gl(p.n, *g)),
+            RawAtom::W { lookup, sub, rule, noise } => {
+                let lookup = if p.nest_bias && noise % 2 == 0 { 0 } else { *lookup };
+                s.extend(witness(p, lookup, *sub, *rule, *noise))
+            }
+        }
+    }
+    s.truncate(MAX_STRING);
+    s
+}
+
+
+// ------------------------------------------------------------------------------ compact rendering
+
+fn r_cov(c: &Cov) -> String {
+    format!("{{{}}}f{}", c.glyphs.iter().map(|g| g.to_string()).collect::<Vec<_>>().join(","), c.format)
+}
+
+fn r_cd(c: &ClassDefM) -> String {
+    format!("cd{{{}}}f{}", c.map.iter().map(|(g, k)| format!("{}:{}", g, k)).collect::<Vec<_>>().join(","), c.format)
+}
+
+fn r_flags(f: &LookupFlags) -> String {
+    let mut v: Vec<String> = Vec::new();
+    if f.right_to_left {
+        v.push("rtl".into());
+    }
+    if f.ignore_base {
+        v.push("ignoreBase".into());
+    }
+    if f.ignore_ligatures {
+        v.push("ignoreLig".into());
+    }
+    if f.ignore_marks {
+        v.push("ignoreMarks".into());
+    }
+    if f.mark_attach_type != 0 {
+        v.push(format!("attachType={}", f.mark_attach_type));
+    }
+    if let Some(s) = f.mark_filtering_set {
+        v.push(format!("filterSet={}", s));
+    }
+    if v.is_empty() {
+        "-".into()
+    } else {
+        v.join("|")
+    }
+}
+
+fn r_sub(st: &Subtable) -> String {
+    let seqr = |rs: &Vec<Option<Vec<SeqRule>>>| {
+        rs.iter()
+            .enumerate()
+            .map(|(k, o)| match o {
+                None => format!("{}:NULL", k),
+                Some(v) => format!("{}:[{}]", k, v.iter().map(|r| format!("in{:?}->{:?}", r.input, r.records)).collect::<Vec<_>>().join("; ")),
+            })
+            .collect::<Vec<_>>()
+            .join(" ")
+    };
+    let chr = |rs: &Vec<Option<Vec<ChainRule>>>| {
+        rs.iter()
+            .enumerate()
+            .map(|(k, o)| match o {
+                None => format!("{}:NULL", k),
+                Some(v) => format!("{}:[{}]", k, v.iter().map(|r| format!("back{:?} in{:?} look{:?}->{:?}", r.backtrack, r.input, r.lookahead, r.records)).collect::<Vec<_>>().join("; ")),
+            })
+            .collect::<Vec<_>>()
+            .join(" ")
+    };
+    let covs = |v: &Vec<Cov>| v.iter().map(r_cov).collect::<Vec<_>>().join(" ");
+    match st {
+        Subtable::Single1 { cov, delta } => format!("1.1 {} delta {}", r_cov(cov), delta),
+        Subtable::Single2 { cov, subst } => format!("1.2 {} -> {:?}", r_cov(cov), subst),
+        Subtable::Multiple { cov, seqs } => format!("2 {} -> {:?}", r_cov(cov), seqs),
+        Subtable::Alternate { cov, sets } => format!("3 {} -> {:?}", r_cov(cov), sets),
+        Subtable::Ligature { cov, sets } => format!(
+            "4 {} sets {}",
+            r_cov(cov),
+            sets.iter().map(|s| format!("[{}]", s.iter().map(|l| format!("+{:?}=>{}", l.components, l.glyph)).collect::<Vec<_>>().join("; "))).collect::<Vec<_>>().join(" ")
+        ),
+        Subtable::Context1 { cov, rulesets } => format!("5.1 {} rulesets {}", r_cov(cov), seqr(rulesets)),
+        Subtable::Context2 { cov, classdef, rulesets } => format!("5.2 {} {} rulesets {}", r_cov(cov), r_cd(classdef), seqr(rulesets)),
+        Subtable::Context3 { covs: c, records } => format!("5.3 in[{}] -> {:?}", covs(c), records),
+        Subtable::Chain1 { cov, rulesets } => format!("6.1 {} rulesets {}", r_cov(cov), chr(rulesets)),
+        Subtable::Chain2 { cov, backtrack_classdef, input_classdef, lookahead_classdef, share_classdefs, rulesets } => format!(
+            "6.2 {} back {} in {} look {} shared={} rulesets {}",
+            r_cov(cov),
+            r_cd(backtrack_classdef),
+            r_cd(input_classdef),
+            r_cd(lookahead_classdef),
+            share_classdefs,
+            chr(rulesets)
+        ),
+        Subtable::Chain3 { backtrack, input, lookahead, records } => format!("6.3 back[{}] in[{}] look[{}] -> {:?}", covs(backtrack), covs(input), covs(lookahead), records),
+        Subtable::Reverse { cov, backtrack, lookahead, subst } => format!("8 {} back[{}] look[{}] -> {:?}", r_cov(cov), covs(backtrack), covs(lookahead), subst),
+    }
+}
+
+/// Compact, complete rendering of the resolved program (goes into failure messages).
+pub fn describe(p: &Program) -> String {
+    let mut o = String::new();
+    o.push_str(&format!("glyphs 1..={}\n", p.n));
+    match &p.gdef {
+        None => o.push_str("GDEF: none\n"),
+        Some(g) => {
+            o.push_str(&format!(
+                "GDEF: classes {} attach {} sets {}\n",
+                g.glyph_classes.as_ref().map(r_cd).unwrap_or("none".into()),
+                g.mark_attach_classes.as_ref().map(r_cd).unwrap_or("none".into()),
+                g.mark_glyph_sets.as_ref().map(|s| s.iter().map(r_cov).collect::<Vec<_>>().join(" ")).unwrap_or("none".into())
+            ));
+        }
+    }
+    for (i, l) in p.gsub.lookups.iter().enumerate() {
+        o.push_str(&format!("L{} type {} flags {} ext {:?}\n", i, l.lookup_type, r_flags(&l.flags), l.extension));
+        for s in &l.subtables {
+            o.push_str(&format!("    {}\n", r_sub(s)));
+        }
+    }
+    for (i, f) in p.gsub.features.iter().enumerate() {
+        o.push_str(&format!("F{} {} {:?}\n", i, tag_str(&f.tag), f.lookups));
+    }
+    for s in &p.gsub.scripts {
+        o.push_str(&format!(
+            "script {} default {:?} langsys {:?}\n",
+            tag_str(&s.tag),
+            s.default_langsys.as_ref().map(|l| &l.feature_indices),
+            s.langsys.iter().map(|(t, l)| (tag_str(t), l.feature_indices.clone())).collect::<Vec<_>>()
+        ));
+    }
+    if let Some(fv) = &p.gsub.feature_variations {
+        o.push_str(&format!("FeatureVariations {:?}\n", fv));
+    }
+    o
+}
+
+// ------------------------------------------------------------------------------ the check
+
+fn fail(sig: &str, msg: String) -> Fail {
+    Fail::new(format!("C04:{}", sig), msg)
+}
+
+fn tag_u32(t: &[u8; 4]) -> u32 {
+    u32::from_be_bytes(*t)
+}
+
+fn tag_str(t: &[u8; 4]) -> String {
+    String::from_utf8_lossy(t).to_string()
+}
+
+fn raw_glyph(gid: u16) -> RawGlyph<()> {
+    let ch = char::from_u32(PUA + gid as u32).unwrap();
+    RawGlyph {
+        unicodes: tiny_vec![[char; 1] => ch],
+        glyph_index: gid,
+        liga_component_pos: 0,
+        glyph_origin: GlyphOrigin::Char(ch),
+        flags: RawGlyphFlags::empty(),
+        extra_data: (),
+        variation: None,
+    }
+}
+
+#[derive(Clone, Debug, PartialEq)]
+struct Obs {
+    gid: u16,
+    chars: Vec<u32>,
+    lig: bool,
+    dup: bool,
+}
+
+fn observe(glyphs: &[RawGlyph<()>]) -> Vec<Obs> {
+    glyphs
+        .iter()
+        .map(|g| Obs { gid: g.glyph_index, chars: g.unicodes.iter().map(|c| *c as u32).collect(), lig: g.ligature(), dup: g.multi_subst_dup() })
+        .collect()
+}
+
+fn render(v: &[Obs]) -> String {
+    v.iter()
+        .map(|o| {
+            format!(
+                "{}[{}]{}{}",
+                o.gid,
+                o.chars.iter().map(|c| (c - PUA).to_string()).collect::<Vec<_>>().join("+"),
+                if o.lig { "L" } else { "" },
+                if o.dup { "D" } else { "" }
+            )
+        })
+        .collect::<Vec<_>>()
+        .join(" ")
+}
+
+fn expected_obs(out: &Outcome) -> Vec<Obs> {
+    out.glyphs.iter().map(|g| Obs { gid: g.gid, chars: g.chars.clone(), lig: g.lig, dup: g.dup }).collect()
+}
+
+struct Ctxt<'a> {
+    p: &'a Program,
+    req: &'a Req,
+    string: &'a [u16],
+}
+
+/// Compare one observed run with the reference outcome.
+fn compare(entry: &str, c: &Ctxt<'_>, exp: &Outcome, got: &[Obs]) -> CaseResult {
+    let want = expected_obs(exp);
+    let ids_equal = want.len() == got.len() && want.iter().zip(got).all(|(a, b)| a.gid == b.gid);
+    let describe = || {
+        format!(
+            "entry {}: string {:?} features {:?} alternate {:?} lang {:?} tuple {:?} lookups applied {:?}\n  expected {}\n  observed {}",
+            entry,
+            c.string,
+            c.req.features.iter().map(tag_str).collect::<Vec<_>>(),
+            c.req.alternate,
+            c.req.lang.as_ref().map(tag_str),
+            c.req.tuple,
+            exp.lookups,
+            render(&want),
+            render(got)
+        ) + "\nprogram:\n" + &describe(c.p)
+    };
+    if !ids_equal {
+        // attribution by defect model (DESIGN §3.6)
+        let r = request(c.req);
+        let input: Vec<RGlyph> = c.string.iter().map(|g| RGlyph::new(*g, PUA + *g as u32)).collect();
+        let dev = refgsub::apply_deviant(&c.p.gsub, c.p.gdef.as_ref(), &r, input, Deviation::FilteringSetSkipsNonMarks);
+        let devobs = expected_obs(&dev);
+        if devobs.len() == got.len() && devobs.iter().zip(got).all(|(a, b)| a.gid == b.gid && a.chars == b.chars) {
+            return Err(fail(
+                "mark-filtering-set-skips-non-marks",
+                format!("a lookup with useMarkFilteringSet skipped glyphs that are not marks (observed output equals the defect model)\n{}", describe()),
+            ));
+        }
+        return Err(fail("glyphs", describe()));
+    }
+    if want.iter().zip(got).any(|(a, b)| a.chars != b.chars) {
+        return Err(fail("unicodes", describe()));
+    }
+    for (a, b) in want.iter().zip(got) {
+        if a.dup != b.dup || (!a.dup && a.lig != b.lig) {
+            return Err(fail("flags", describe()));
+        }
+    }
+    Ok(())
+}
+
+fn request(r: &Req) -> Request<'_> {
+    Request { script: *b"latn", lang: r.lang, features: &r.features, alternate: r.alternate, tuple: r.tuple.as_deref() }
+}
+
+fn build_font(p: &Program, gsub_bytes: &[u8], gdef_bytes: Option<&[u8]>, fvar_bytes: Option<&[u8]>) -> Vec<u8> {
+    let mut f = BasicFont::with_glyphs(p.n + 1);
+    for g in 1..=p.n {
+        f.cmap.insert(PUA + g as u32, g);
+    }
+    f.extra.push((*b"GSUB", gsub_bytes.to_vec()));
+    if let Some(g) = gdef_bytes {
+        f.extra.push((*b"GDEF", g.to_vec()));
+    }
+    if let Some(v) = fvar_bytes {
+        f.extra.push((*b"fvar", v.to_vec()));
+    }
+    f.build()
+}
+
+pub fn check_case(case: &Case, rec: &mut Rec) -> CaseResult {
+    let p = resolve(case);
+    let gsub_bytes = match gsub_table(&p.gsub) {
+        Ok(b) => b,
+        Err(_) => {
+            rec.class("excl:offset-overflow");
+            return Ok(());
+        }
+    };
+    let gdef_bytes = p.gdef.as_ref().map(gdef_table);
+    rec.hash_bytes(&gsub_bytes);
+    if let Some(g) = &gdef_bytes {
+        rec.hash_bytes(g);
+    }
+    rec.hash_bytes(format!("{:?}{:?}", p.requests, p.strings).as_bytes());
+    rec.artefact("GSUB", &gsub_bytes);
+    if let Some(g) = &gdef_bytes {
+        rec.artefact("GDEF", g);
+    }
+    let axis_count = p.gsub.feature_variations.as_ref().map(|f| f.axis_count as usize).unwrap_or(0);
+    let fvar_bytes = if axis_count > 0 {
+        let axes: Vec<AxisModel> = (0..axis_count)
+            .map(|i| AxisModel { tag: [b'a', b'x', b'0', b'0' + i as u8], min: -65536, default: 0, max: 65536, flags: 0, name_id: 256 + i as u16 })
+            .collect();
+        Some(fvar_table(&axes, &[], 0))
+    } else {
+        None
+    };
+    let font_bytes = build_font(&p, &gsub_bytes, gdef_bytes.as_deref(), fvar_bytes.as_deref());
+    rec.artefact("font", &font_bytes);
+
+    // entry (a): tables parsed directly
+    let table = ReadScope::new(&gsub_bytes).read::<LayoutTable<GSUB>>().map_err(|e| fail("gsub-parse", format!("generated GSUB does not parse: {:?}", e)))?;
+    let cache = new_layout_cache(table);
+    let gdef_parsed = match &gdef_bytes {
+        Some(b) => Some(ReadScope::new(b).read::<GDEFTable>().map_err(|e| fail("gdef-parse", format!("generated GDEF does not parse: {:?}", e)))?),
+        None => None,
+    };
+    let fvar = match &fvar_bytes {
+        Some(b) => Some(ReadScope::new(b).read::<FvarTable<'_>>().map_err(|e| fail("fvar-parse", format!("{:?}", e)))?),
+        None => None,
+    };
+    // entry (b)/(c): the complete font
+    let fd = ReadScope::new(&font_bytes).read::<FontData<'_>>().map_err(|e| fail("font-read", format!("{:?}", e)))?;
+    let new_font = || -> Result<Font<_>, Fail> {
+        let prov = fd.table_provider(0).map_err(|e| fail("font-provider", format!("{:?}", e)))?;
+        Font::new(prov).map_err(|e| fail("font-new", format!("{:?}", e)))
+    };
+    let mut font = new_font()?;
+    // one Font reused for every Mask request: only *observed* (class note:…), the per-font lookup
+    // list cache and its key are the subject of C03
+    let mut shared_mask_font = new_font()?;
+    let num_glyphs = p.n + 1;
+
+    let mut classes: BTreeSet<String> = BTreeSet::new();
+    let mut nontrivial = false;
+    let mut evals = 0u64;
+    let mut known: Option<Fail> = None;
+    let mut sample: Option<String> = None;
+
+    for req in &p.requests {
+        let mut req = req.clone();
+        // the tuple as allsorts sees it: produced by the documented route (fvar normalisation)
+        let owned_tuple = match (&fvar, &req.tuple) {
+            (Some(fv), Some(t)) => {
+                let ot = fv
+                    .normalize(t.iter().map(|v| Fixed::from_raw(*v as i32 * 4)), None)
+                    .map_err(|e| fail("tuple-normalize", format!("{:?} for {:?}", e, t)))?;
+                let actual: Vec<i16> = ot.iter().map(|v| v.raw_value()).collect();
+                if &actual != t {
+                    classes.insert("note:tuple-normalisation-inexact".into());
+                }
+                req.tuple = Some(actual);
+                Some(ot)
+            }
+            _ => {
+                req.tuple = None;
+                None
+            }
+        };
+        let custom = Features::Custom(req.features.iter().map(|t| FeatureInfo { feature_tag: tag_u32(t), alternate: req.alternate }).collect());
+        let lang = req.lang.as_ref().map(tag_u32);
+        let mut mask = FeatureMask::empty();
+        let mut mask_ok = req.alternate.unwrap_or(0) == 0;
+        for t in &req.features {
+            let m = FeatureMask::from_tag(tag_u32(t));
+            if m.is_empty() {
+                mask_ok = false;
+            }
+            mask |= m;
+        }
+        let mut mask_font = if mask_ok { Some(new_font()?) } else { None };
+        for s in &p.strings {
+            let cx = Ctxt { p: &p, req: &req, string: s };
+            let input: Vec<RGlyph> = s.iter().map(|g| RGlyph::new(*g, PUA + *g as u32)).collect();
+            let exp = refgsub::apply(&p.gsub, p.gdef.as_ref(), &request(&req), input.clone());
+            // one open point is handled by accepting either reading instead of excluding
+            let mut exp2: Option<Outcome> = None;
+            let mut exp = exp;
+            if exp.ambiguous.len() == 1 && exp.ambiguous.contains("nested-position-skipped-by-nested-flags") {
+                let alt = refgsub::apply_reading(&p.gsub, p.gdef.as_ref(), &request(&req), input.clone(), true);
+                if alt.ambiguous.len() == 1 {
+                    exp.ambiguous.clear();
+                    exp2 = Some(alt);
+                    classes.insert("two-readings:nested-position-skipped-by-nested-flags".into());
+                }
+            }
+            let compare_ok = exp.ambiguous.is_empty();
+            for a in &exp.ambiguous {
+                classes.insert(format!("excl:{}", a));
+            }
+            if !compare_ok {
+                // executed for crashes only — unless the program could grow the run explosively
+                let mut bound = s.len().max(1);
+                for l in &exp.lookups {
+                    bound = bound.saturating_mul(1 + refgsub::growth_bound(&p.gsub, *l, 0));
+                }
+                if exp.ambiguous.contains("run-longer-than-256") || bound > 4096 {
+                    classes.insert("excl:not-executed-run-may-explode".into());
+                    classes.insert("excl:any".into());
+                    continue;
+                }
+            }
+            let text: String = s.iter().map(|g| char::from_u32(PUA + *g as u32).unwrap()).collect();
+
+            // (a) gsub::apply
+            let mut glyphs: Vec<RawGlyph<()>> = s.iter().map(|g| raw_glyph(*g)).collect();
+            let r = gsub::apply(0, &cache, gdef_parsed.as_ref(), allsorts::tag::LATN, lang, &custom, owned_tuple.as_ref().map(|t| t.as_tuple()), num_glyphs, &mut glyphs);
+            let mut results: Vec<(&str, Vec<Obs>)> = Vec::new();
+            match r {
+                Ok(()) => results.push(("gsub::apply/Custom", observe(&glyphs))),
+                Err(e) => {
+                    if compare_ok {
+                        return Err(fail("apply-error", format!("gsub::apply returned {:?} for string {:?} features {:?}", e, s, req.features.iter().map(tag_str).collect::<Vec<_>>())));
+                    }
+                }
+            }
+            // (b) Font::shape, custom features
+            let mapped = font.map_glyphs(&text, allsorts::tag::LATN, MatchingPresentation::NotRequired);
+            if mapped.iter().map(|g| g.glyph_index).collect::<Vec<u16>>() != *s {
+                return Err(fail("map-glyphs", format!("map_glyphs gave {:?} for {:?}", mapped.iter().map(|g| g.glyph_index).collect::<Vec<u16>>(), s)));
+            }
+            match font.shape(mapped, allsorts::tag::LATN, lang, &custom, owned_tuple.as_ref().map(|t| t.as_tuple()), true) {
+                Ok(infos) => {
+                    let g: Vec<RawGlyph<()>> = infos.into_iter().map(|i| i.glyph).collect();
+                    results.push(("Font::shape/Custom", observe(&g)));
+                }
+                Err((e, _)) => {
+                    if compare_ok {
+                        return Err(fail("shape-error", format!("Font::shape returned {:?} for string {:?}", e, s)));
+                    }
+                }
+            }
+            // (c) Font::shape, feature mask (fresh font per request: the per-font lookup cache is C03's subject)
+            if let Some(mf) = mask_font.as_mut() {
+                let mapped = mf.map_glyphs(&text, allsorts::tag::LATN, MatchingPresentation::NotRequired);
+                match mf.shape(mapped, allsorts::tag::LATN, lang, &Features::Mask(mask), owned_tuple.as_ref().map(|t| t.as_tuple()), true) {
+                    Ok(infos) => {
+                        let g: Vec<RawGlyph<()>> = infos.into_iter().map(|i| i.glyph).collect();
+                        results.push(("Font::shape/Mask", observe(&g)));
+                    }
+                    Err((e, _)) => {
+                        if compare_ok {
+                            return Err(fail("shape-error", format!("Font::shape(Mask) returned {:?} for string {:?}", e, s)));
+                        }
+                    }
+                }
+                classes.insert("entry:mask".into());
+                if compare_ok {
+                    let mapped = shared_mask_font.map_glyphs(&text, allsorts::tag::LATN, MatchingPresentation::NotRequired);
+                    let shared = match shared_mask_font.shape(mapped, allsorts::tag::LATN, lang, &Features::Mask(mask), owned_tuple.as_ref().map(|t| t.as_tuple()), true) {
+                        Ok(infos) => Some(observe(&infos.into_iter().map(|i| i.glyph).collect::<Vec<_>>())),
+                        Err(_) => None,
+                    };
+                    if let (Some(sh), Some((_, fresh))) = (shared, results.last()) {
+                        if &sh != fresh {
+                            classes.insert("note:reused-font-mask-result-differs-from-fresh-font(C03)".into());
+                        }
+                    }
+                }
+            }
+            if !compare_ok {
+                classes.insert("excl:any".into());
+                continue;
+            }
+            for (entry, got) in &results {
+                evals += 1;
+                let verdict = match compare(entry, &cx, &exp, got) {
+                    Err(f) => match &exp2 {
+                        Some(alt) if compare(entry, &cx, alt, got).is_ok() => Ok(()),
+                        _ => Err(f),
+                    },
+                    ok => ok,
+                };
+                if let Err(f) = verdict {
+                    if f.sig == "C04:mark-filtering-set-skips-non-marks" {
+                        // attributed to a modelled deviation: keep checking the rest of the case
+                        known.get_or_insert(f);
+                    } else {
+                        return Err(f);
+                    }
+                }
+            }
+            // classification
+            let changed = exp.glyphs.len() != input.len() || exp.glyphs.iter().zip(&input).any(|(a, b)| a != b);
+            if changed {
+                nontrivial = true;
+                if sample.is_none() {
+                    sample = Some(format!(
+                        "features {:?} lookups {:?} (types {:?}) string {:?} -> {}",
+                        req.features.iter().map(tag_str).collect::<Vec<_>>(),
+                        exp.lookups,
+                        exp.lookups.iter().map(|l| p.gsub.lookups[*l].lookup_type).collect::<Vec<_>>(),
+                        s,
+                        render(&expected_obs(&exp))
+                    ));
+                }
+            }
+            for k in &exp.fired {
+                classes.insert(format!("fired:{}", k));
+            }
+            for k in &exp.skipped {
+                classes.insert(format!("skip:{}", k));
+            }
+            let flags: [(bool, &str); 13] = [
+                (exp.class0_first, "class0-first-glyph"),
+                (exp.extension_fired, "extension-fired"),
+                (exp.nested_fired, "nested-fired"),
+                (exp.nested_at_index_gt0, "nested-at-index>0"),
+                (exp.nested_depth2, "nested-depth2"),
+                (exp.second_subtable, "second-subtable"),
+                (exp.second_rule, "second-rule"),
+                (exp.feature_variation_substituted, "feature-variation-substituted"),
+                (exp.fallback_dflt_script, "script-fallback-DFLT"),
+                (exp.named_langsys, "named-langsys"),
+                (exp.no_langsys, "no-langsys"),
+                (exp.length_changed_in_context, "length-change-in-context"),
+                (exp.glyphs.iter().any(|g| g.chars.len() >= 3), "ligature-of-3+chars"),
+            ];
+            for (b, name) in flags {
+                if b {
+                    classes.insert(name.to_string());
+                }
+            }
+            if exp.lookups.len() >= 3 {
+                classes.insert("lookups>=3".into());
+            }
+            if exp.lookups.iter().any(|l| matches!(p.gsub.lookups[*l].lookup_type, 5 | 6) && refgsub::has_records(&p.gsub, *l)) {
+                classes.insert("potential:context-with-records-enabled".into());
+            }
+            if exp.fired.iter().any(|k| k.starts_with('5') || k.starts_with('6')) {
+                classes.insert("context-rule-matched".into());
+            }
+            if exp.glyphs.iter().any(|g| g.dup) {
+                classes.insert("multiple-dup".into());
+            }
+        }
+    }
+    if p.unordered_rules > 0 {
+        classes.insert("records-in-generated-order".into());
+    }
+    if p.gdef.is_none() {
+        classes.insert("no-gdef".into());
+    }
+    for c in classes.iter().take(60) {
+        rec.class(c);
+    }
+    rec.evaluations(evals.saturating_sub(1));
+    rec.set_nontrivial(nontrivial);
+    if let Some(s) = sample {
+        rec.sample(|| s);
+    }
+    match known {
+        Some(f) => Err(f),
+        None => Ok(()),
+    }
+}
 
 impl Property for C04 {
     fn id(&self) -> &'static str {
         "C04"
     }
     fn rule(&self) -> String {
-        "not implemented".to_string()
+        "proptest generates a raw GSUB program (24-63 glyphs with GDEF glyph classes / mark attachment classes / mark glyph sets; 1-6 lookups of types 1.1 1.2 2 3 4 5.1-5.3 6.1-6.3 8 with 1-3 subtables, \
+         lookup flags incl. mark attachment type and mark filtering set, optional Extension wrapping, coverage and classdef formats 1/2 chosen per table, nested sequence-lookup records up to depth 2; \
+         1-4 features with neutral tags; DFLT/latn/grek scripts with default and TRK LangSys; optional FeatureVariations) which is normalised into a valid model and encoded by my own GSUB/GDEF/fvar encoders; \
+         4-8 glyph strings (0-16 glyphs, witnesses of the program's rules with skippable glyphs interleaved, plus random glyphs) are shaped for 1-2 requests (feature subset, alternate index, language, tuple) through \
+         gsub::apply(Custom) on the parsed tables, Font::shape(Custom) and, when every tag is mask-expressible, Font::shape(Mask) on a complete font; glyph ids, per-glyph unicodes and LIGATURE/MULTI_SUBST_DUP flags \
+         are compared with an independent interpreter of the OpenType GSUB semantics run on the model. Evaluations whose outcome the specification leaves open (classes excl:*) are executed but not compared. \
+         Non-trivial = the reference output differs from the input for at least one compared (request, string); distinct by hash of GSUB+GDEF bytes, requests and strings."
+            .to_string()
     }
-    fn run(&self, _ctx: &mut Ctx) {}
+    fn assumptions(&self) -> Vec<String> {
+        vec![
+            "the reference interpreter (refmodel::otl_gsub) is a correct reading of the OpenType specification; it was written from the specification text and shares no code with allsorts".into(),
+            "requiredFeatureIndex is 0xFFFF, a feature tag occurs at most once per LangSys, one alternate index per request (soundness exclusions, DESIGN C04 X)".into(),
+            "not compared (counted as excl:*): sequence index after a length change when re-counting disagrees, nested lookup whose own flags skip the glyph at its position, nested lookup consuming glyphs beyond the matched input, nested type 3 with an explicit alternate index, alternate index out of range".into(),
+            "mark attachment type and mark filtering set are never combined in one lookup; reverse chaining lookups are never invoked from sequence lookup records".into(),
+            "Features::Mask is exercised on a fresh Font per request because the per-font lookup list cache is the subject of C03".into(),
+        ]
+    }
+    fn run(&self, ctx: &mut Ctx) {
+        let n = ctx.cases(150_000, 3_000_000);
+        ctx.section("programs", n, case_strategy(), |c, rec| check_case(c, rec));
+    }
 }
